@@ -200,7 +200,10 @@ func main() {
 									if id, ok := se.X.(*ast.Ident); ok {
 										q := id.Name + "." + se.Sel.Name
 										if q == "time.Now" || q == "time.Since" || q == "time.Until" || q == "time.After" || q == "time.Sleep" || q == "time.Tick" ||
-											id.Name == "rand" || q == "os.Getenv" || q == "os.Hostname" || q == "os.Getpid" || q == "os.ReadFile" || q == "runtime.NumGoroutine" {
+											id.Name == "rand" || q == "os.Getenv" || q == "os.Hostname" || q == "os.Getpid" || q == "os.ReadFile" || q == "runtime.NumGoroutine" ||
+											// identifiers minted from the clock or a random source (the name-based V3/V5 ones are functions of their input)
+											(id.Name == "uuid" && (se.Sel.Name == "NewV1" || se.Sel.Name == "NewV2" || se.Sel.Name == "NewV4" || se.Sel.Name == "New" ||
+												se.Sel.Name == "NewRandom" || se.Sel.Name == "NewUUID" || se.Sel.Name == "NewString")) {
 											clockCalls = append(clockCalls, fact{rel + "/" + base, fn, q})
 										}
 									}
